@@ -226,7 +226,12 @@ class CounterModel(object):
         mine = [e for e in run.evals if e.owner == h.cur]
         # (1) best-energy history non-increasing, last == reported best
         eh = s['energy_history']
-        for i in range(self.epoch_from, len(eh) - 1):     # within one objective epoch
+        start = self.epoch_from
+        if solver == 'Powell' and start and T.get('aborted_step'):
+            # (Powell keeps the record of an iteration that a raising cost aborted -- listed finding -- so after such a run the index at
+            # which a later mid-run change of the objective takes effect in the history is one further on)
+            start += 1
+        for i in range(start, len(eh) - 1):     # within one objective epoch
             a, b = eh[i], eh[i + 1]
             if isinstance(a, float) and isinstance(b, float) and b > a:
                 h.violate(self.P, 'best_history_increased', detail='%s: energy_history[%d]=%r < [%d]=%r'
